@@ -24,6 +24,7 @@ import (
 //   ack    : the same with a response acknowledged while stalled (its ACK waits in the channel)
 //   flood  : the same with a stream failure + reconnect (new stream published, not yet adopted) before the lookups
 //   outage : the stream fails and cannot be re-created; n lookups miss meanwhile
+//   stop   : as burst, but instead of resuming the control plane rejects the client (authentication): close()
 func flowCase(c *ctx, kind string, n int) { flowCaseHold(c, kind, n, 0) }
 
 // flowCaseHold: as flowCase; the transport stays stalled for `hold` after the lookups got stuck (or finished).
@@ -96,6 +97,29 @@ func flowCaseHold(c *ctx, kind string, n int, hold time.Duration) {
 	}()
 	waitStuckOrDone(done, &returned)
 	r1 := atomic.LoadInt64(&returned)
+	if kind == "stop" {
+		// the control plane rejects the client for good while a lookup is parked in sendRequest (channel full, Send
+		// still stalled): the stop must release it, and every later lookup gives up at once
+		w.feedErr(authErr())
+		select {
+		case <-done:
+		case <-time.After(time.Duration(n)*4*time.Millisecond + 4*time.Second):
+			hung = true
+			w.hung = true
+		}
+		r2 := atomic.LoadInt64(&returned)
+		c.count("flow.stop", 1)
+		c.emit(obj{"op": "flow", "kind": kind, "n": n, "obs": obj{"returnedWhileStalled": r1, "returned": r2, "hang": hung,
+			"closed": w.m.VerifClosed(), "wire": []interface{}{}}})
+		// the sender is still inside the stalled Send: let it go before the world is torn down
+		w.ads.mu.Lock()
+		for _, s := range w.ads.streams {
+			s.sendGate = nil
+		}
+		w.ads.mu.Unlock()
+		close(gate)
+		return
+	}
 	if hold > 0 {
 		// the transport stays stalled for a while longer: what happens to the lookup that found the channel full?
 		select {
